@@ -1,0 +1,17 @@
+//go:build verif
+
+// Machine-checked contracts for package zipbased (comment-only; see /verif/DESIGN.md).
+
+package zipbased
+
+//@ func (*zipTransformer).GetReader$1
+//@   property C09
+//@   ghost terr error = nil
+//@   ghost dstG io.Writer = nil
+//@   ghost produced bool = false
+//@   ghost closed bool = false
+//@   before call zipslicer.ZipToTar(src, dst): assert @the_file_being_signed_is_what_gets_uploaded src == t.f && dst == iface(w) && !produced
+//@   on call zipslicer.ZipToTar(_, dst) ret (e): terr = e; produced = true; dstG = dst
+//@   before call (*io.PipeWriter).CloseWithError(p, e): assert @a_failed_transform_fails_the_upload_instead_of_ending_it_early iface(p) == dstG && produced && e == terr
+//@   on call (*io.PipeWriter).CloseWithError(_, _) ret (x): closed = true
+//@   ensures @the_upload_stream_is_always_ended closed
